@@ -28,6 +28,7 @@ ASSUMPTIONS = ["BlockValue.size_exponent <= 7 for block values in the handler st
 
 
 def check(env, rep, tier):
+    include(rep, env, tier, "c10", ("C10.5",), "C08.9", "'every body length': the reply is measured without its payload before it is fragmented (a whole-message size check would refuse large bodies)")
     include(rep, env, tier, "c20", ("C20.2",), "C08.8", "'later blocks are served from the cache': the per-key entry is only reached through entry()/or_insert() - it is never removed, replaced or iterated by the handler")
     configs = ["default"] if tier == "quick" else ["default", "udp"]
     rep.configs = configs
